@@ -419,6 +419,8 @@ def write_evidence(ctx, mod, nviol):
     ev = dict(property_id=ctx.pid, tier=ctx.tier, seed=int(ctx.seed), level=level, coverage=cov,
               assumptions=list(getattr(mod, "ASSUMPTIONS", [])) + ctx.assumptions,
               wall_s=round(time.time() - ctx.t0, 2), violations=int(nviol))
-    os.makedirs(os.path.join(VERIF, "evidence"), exist_ok=True)
-    with open(os.path.join(VERIF, "evidence", "%s.json" % ctx.pid), "w") as fh:
+    # evidence/ is only for runs against /repo itself; runs against a scratch tree (ESRV_REPO) go elsewhere
+    evdir = "evidence" if os.path.realpath(REPO) == "/repo" else "evidence_scratch"
+    os.makedirs(os.path.join(VERIF, evdir), exist_ok=True)
+    with open(os.path.join(VERIF, evdir, "%s.json" % ctx.pid), "w") as fh:
         json.dump(ev, fh, indent=1, default=str)
